@@ -44,7 +44,7 @@ CHECKS = {
    tech=TECH + ": simulated memory map (guard pages, canaries, checksums) as monitor in all simulations"),
  "C14": dict(cat="exploration", sec="5 cross-cutting monitors",
    text="After every AES entry point (key expansion, GCM precompute/init/update/finalize/one-shot, CBC, XTS; all families, raw and isal_ API) reached from streaming GCM clients and the one-shot client, all 128 16-byte lanes of zmm0-31 and the dirtied part of a 64 KiB pre-poisoned dead stack are searched for the call's secret set.",
-   note="Secret set: raw keys, all round keys, GHASH key and stored powers, E(key2,tweak). Dedicated call stack re-poisoned per call, so residue is attributable to the call. Low-entropy blocks are not used as needles.",
+   note="Secret set: raw keys, all round keys, GHASH key and stored powers, E(key2,tweak). Dedicated call stack re-poisoned per call, so residue is attributable to the call. Low-entropy blocks are not used as needles. A second pass runs the monitor over the FIPS_MODE archive (gated isal_ API through the one-shot and streaming clients, and the FIPS gate enumeration incl. the refusing paths).",
    tech=TECH + ": register-file/dead-stack capture by the call trampoline, secret scan as monitor"),
  "C15": dict(cat="exploration", sec="5 HashMgrSim long-stream workload",
    text="Long clients stream a periodic pattern through a 4 GiB aliased window under seeded segmentations (segments up to 2^32-1 bytes, small unaligned bursts around 2^29, 2^32, 2^32+2^29) interleaved with short clients on every (algorithm, family) pair; digest compared with a streaming reference, total_length with the sum of segments.",
